@@ -358,6 +358,21 @@ LITS = [
     ("utils_regrid_spec", "wavespectra/core/utils.py", "regrid_spec"),
     ("specarray_rotate", "wavespectra/specarray.py", "SpecArray.rotate"),
     ("utils_smooth_spec", "wavespectra/core/utils.py", "smooth_spec"),
+    ("construct_pm", "wavespectra/construct/frequency.py", "pierson_moskowitz"),
+    ("construct_jonswap", "wavespectra/construct/frequency.py", "jonswap"),
+    ("construct_tma", "wavespectra/construct/frequency.py", "tma"),
+    ("construct_gaussian", "wavespectra/construct/frequency.py", "gaussian"),
+    ("construct_cartwright", "wavespectra/construct/direction.py", "cartwright"),
+    ("construct_asymmetric", "wavespectra/construct/direction.py", "asymmetric"),
+    ("construct_partition", "wavespectra/construct/__init__.py", "construct_partition"),
+    ("utils_scaled", "wavespectra/core/utils.py", "scaled"),
+    ("npstats_jonswap", "wavespectra/core/npstats.py", "jonswap"),
+    ("npstats_gaussian", "wavespectra/core/npstats.py", "gaussian"),
+    ("ww3station_extract_direction", "wavespectra/input/ww3_station.py", "extract_direction"),
+    ("ndbc_ascii_construct_spectra", "wavespectra/input/ndbc_ascii.py", "construct_spectra"),
+    ("direction_cartwright", "wavespectra/construct/direction.py", "cartwright"),
+    ("triaxys_dirs", "wavespectra/input/triaxys.py", "Triaxys.dirs"),
+    ("ndbc_ascii_read_ndbc_ascii", "wavespectra/input/ndbc_ascii.py", "read_ndbc_ascii"),
     ("select_distance", "wavespectra/core/select.py", "Coordinates.distance"),
     ("select_swap", "wavespectra/core/select.py", "Coordinates._swap_longitude_convention"),
     ("select_sel_bbox", "wavespectra/core/select.py", "sel_bbox"),
